@@ -27,14 +27,15 @@ def _alts(base, n):
 
 SNVS = [(c, p, r, _alts(r, 2 if (c, p) == ("chr1", 17) else 1)) for (c, p, r, _) in SNVS]
 LOCI = [("chr1", 8, 30, "L1"), ("chr1", 36, 48, "L5"), ("chr1", 50, 58, "L2"), ("chr2", 5, 25, "L3"), ("chr2", 34, 48, "L4"), ("chr2", 49, 59, "L6")]
-PLOIDY = {"S1": 4, "S2": 2, "S3": 6}
-RG = {"S1": "rg1", "S2": "rg2", "S3": "rg3"}
+PLOIDY = {"S1": 4, "S2": 2, "S3": 6, "S0": 2}
+RG = {"S1": "rg1", "S2": "rg2", "S3": "rg3", "S0": "rg0"}
 HAPS = {
     "S1": {"L1": [(0, 0, 0), (1, 1, 0), (1, 2, 1), (0, 0, 0)], "L3": [(1, 1), (1, 0)]},
     "S2": {"L1": [(1, 1, 0), (1, 2, 1)], "L3": [(1, 1)]},
     "S3": {"L1": [(0, 0, 0)], "L3": [(1, 0), (0, 1)]},
+    "S0": {"L1": [], "L3": []},   # optional extra sample with no read at the loci that hold called SNVs (only at L5)
 }
-DEPTH = {"S1": 16, "S2": 12, "S3": 8}
+DEPTH = {"S1": 16, "S2": 12, "S3": 8, "S0": 6}
 
 
 def locus_snvs(name):
@@ -50,10 +51,11 @@ def sample_reads(sample, depth=None, prefix=None, haps=None):
     out = []
     l1, l3, l5 = locus_snvs("L1"), locus_snvs("L3"), locus_snvs("L5")
     for i in range(depth):
-        h = haps["L1"][i % len(haps["L1"])]
-        st = 8 + (i % 3)
-        out.append(dict(name="%sa%d" % (prefix, i), contig="chr1", pos=st, cigar=[("M", 20)], seq=synth.hap_seq("chr1", st, 20, l1, h), rg=rg))
-        for k in range(3):
+        if haps["L1"]:
+            h = haps["L1"][i % len(haps["L1"])]
+            st = 8 + (i % 3)
+            out.append(dict(name="%sa%d" % (prefix, i), contig="chr1", pos=st, cigar=[("M", 20)], seq=synth.hap_seq("chr1", st, 20, l1, h), rg=rg))
+        for k in range(3 if haps["L3"] else 0):
             h = haps["L3"][(i + k) % len(haps["L3"])]
             st = 5 + (k % 2)
             out.append(dict(name="%sb%d_%d" % (prefix, i, k), contig="chr2", pos=st, cigar=[("M", 18)], seq=synth.hap_seq("chr2", st, 18, l3, h), rg=rg))
